@@ -31,6 +31,12 @@ func initEncAndDecModes() {
 
 	decMode, err = cbor.DecOptions{
 		MaxArrayElements: 10485760, // Set to a reasonably high value, 10MiB
+		// The encoder has no size limits, so every decoder limit is a class of values that can be
+		// written but never read back. Maps (state diffs) get the same bound as arrays (library
+		// default: 131072 pairs); nesting is only deep for CasmClass.BytecodeSegmentLengths (two
+		// levels per segment level; library default: 32 levels).
+		MaxMapPairs:     10485760,
+		MaxNestedLevels: 1024,
 		// Go strings are arbitrary bytes and the encoder writes them as they are: a text string
 		// that is not valid UTF-8 must decode back, or the record it sits in becomes unreadable.
 		UTF8: cbor.UTF8DecodeInvalid,
